@@ -20,7 +20,7 @@ ID = "C19"
 LEVEL = "fault_enumeration"
 RULE = (
     "classes {unbalanced constant currents, unbalanced callable currents (always / late / growing), unknown terminal, epsilon > 1 (scalar / spatial / time-dependent), "
-    "each SolverOptions rule, empty terminal (inside / outside), foreign seed (geometry / layer / units / mesh-less), vector potential of wrong shape, invalid polygons, invalid device definitions} "
+    "each SolverOptions rule, empty terminal (inside / outside), the same defects reached in place on objects used successfully before (terminal moved / re-assigned, options or currents mutated, device changed after it produced the seed), foreign seed (geometry / layer / units / mesh-less), vector potential of wrong shape, invalid polygons, invalid device definitions} "
     "x devices x magnitudes {1, 1e-3, 1e-6} x output {None, path, nested path} x validator seeds. Non-trivial = the defect is the only defect of the input; distinct = case parameters."
 )
 ASSUMPTIONS = [
@@ -53,6 +53,9 @@ def variants():
                                    "solver_name", "gpu", "cupy_without_gpu")]
     v += [("empty_terminal", k) for k in ("inside", "outside")]
     v += [("seed", k) for k in ("geometry", "layer", "units", "probe_points", "name", "no_terminals", "fewer_terminals", "extra_hole", "renamed_terminal")]
+    # the ill-posed state is reached on objects that were valid, and were used successfully, before
+    v += [("history", k) for k in ("terminal_moved_inside", "terminal_moved_outside", "terminal_points_set", "terminals_reassigned", "options_mutated",
+                                   "currents_dict_mutated", "layer_changed_after_seed", "terminal_moved_after_seed")]
     v += [("vector_potential", k) for k in ("n", "n1", "nplus1", "scalar_callable")]
     v += [("polygon", k) for k in ("bowtie", "two_points", "interior_ring", "collinear")]
     v += [("device", k) for k in ("duplicate_terminals", "unnamed_terminal", "duplicate_holes", "unnamed_film", "probe_outside", "probe_in_hole", "probe_shape")]
@@ -209,6 +212,44 @@ def run_case(case):
         seed = tdgl.solve(other, o2, applied_vector_potential=0.2, terminal_currents=None)
         skw["seed_solution"] = seed
         make = solve_with(okw, skw)
+    elif cls == "history":
+        d2 = dev.copy()  # private polygons and layer; the mesh object is shared and never modified
+        sd = tempfile.mkdtemp(prefix="seed-", dir=tempfile.gettempdir())
+        opts1 = tdgl.SolverOptions(solve_time=3e-3, dt_init=1e-3, dt_max=1e-2, output_file=os.path.join(sd, "first.h5"), progress_interval=10**9)
+        cur1 = dict(zip(names, base_cur))
+        first = tdgl.solve(d2, opts1, applied_vector_potential=0.2, terminal_currents=cur1)  # the well-posed first use
+        assert first is not None
+        _ = d2.terminal_info(), d2.points, d2.triangulation
+        tsorted = sorted(d2.terminals, key=lambda t: t.name)
+        t0 = tsorted[0]
+        cx, cy = t0.points[:-1].mean(axis=0)
+        opts2 = tdgl.SolverOptions(**okw)
+        if var == "terminal_moved_inside":
+            t0.translate(dx=-cx + 0.15, dy=-cy + 0.1, inplace=True)  # now floats strictly inside the film: covers no boundary
+            if case["dev"] != "G1":
+                t0.scale(xfact=0.3, yfact=0.3, inplace=True)
+        elif var == "terminal_moved_outside":
+            t0.translate(dx=40.0, dy=40.0, inplace=True)
+        elif var == "terminal_points_set":
+            t0.points = circle(0.2, points=12, center=(40.0, -40.0))
+        elif var == "terminals_reassigned":
+            d2.terminals = tuple(t for t in d2.terminals if t is not t0) + (tdgl.Polygon(t0.name, points=circle(0.2, points=12, center=(40.0, 40.0))),)
+        elif var == "options_mutated":
+            opts2 = opts1
+            opts2.output_file = case["output"]
+            opts2.solve_time = T
+            opts2.dt_init = 1.0  # > dt_max
+        elif var == "currents_dict_mutated":
+            cur1[names[0]] += 0.5 * abs(cur1[names[0]])
+        elif var == "layer_changed_after_seed":
+            d2.layer.london_lambda = d2.layer.london_lambda * 1.5
+            skw["seed_solution"] = first
+        elif var == "terminal_moved_after_seed":
+            # the seed was computed with the terminal elsewhere: a solution of a different device
+            t0.translate(dx=0.0, dy=0.3, inplace=True)
+            skw["seed_solution"] = first
+        skw["terminal_currents"] = cur1
+        make = lambda: tdgl.solve(d2, opts2, **skw)  # noqa: E731
     elif cls == "vector_potential":
         n_e = len(dev.mesh.edge_mesh.edges)
         fn = {
@@ -282,7 +323,7 @@ def run_case(case):
     new_files = sorted(set(sandbox_after) - set(sandbox_before))
     changed = sorted(k for k in sandbox_before if sandbox_after.get(k) != sandbox_before[k])
     new_tmp = sorted(set(tmp_after) - set(tmp_before))
-    if cls == "seed":
+    if cls in ("seed", "history"):
         new_tmp = [t for t in new_tmp if not t.startswith("seed-")]
     if new_files or changed:
         res.violate("rejected-input-left-files", magnitude=m, accepted=(etype is None), **sig, detail=dict(det, new=new_files[:6], changed=changed[:6]))
